@@ -459,3 +459,196 @@ func capFirstLength(stream []byte, max int) []byte {
 	}
 	return nil
 }
+
+// ---- unit "victim": what another client receives from the offender ------------------------------
+//
+// The offender's valid PUBLISH packets are addressed to a victim. The
+// delivery of one of them is parked (yield writeMessage.enter) while the
+// offender goes on sending - garbage, zeros, or a ring's worth of valid
+// PINGREQs - and possibly closes. Whatever the offender does afterwards, the
+// victim must receive the accepted message byte for byte and keep a working
+// connection: the offender's later bytes concern the offender alone.
+
+type C05VCase struct {
+	BufSize int    `json:"bufsize"`
+	Sizes   []int  `json:"sizes"` // payload sizes of the offender's valid publishes; -1 = packet exactly at the size limit
+	QoS     []byte `json:"qos"`
+	TrapAt  int    `json:"trap_at"`  // the delivery of this publish is parked
+	Tail    string `json:"tail"`     // none | garbage | zeros | ff | pings
+	TailLen int    `json:"tail_len"` // bytes
+	Seed    byte   `json:"seed"`     // garbage pattern
+	End     string `json:"end"`      // close (while the delivery is parked) | stay
+}
+
+func runC05Victim(c C05VCase) (res c05result) {
+	b, err := fix.New(int64(c.BufSize), "")
+	if err != nil {
+		return c05result{Fail: "fixture: " + err.Error()}
+	}
+	defer b.Shutdown()
+	defer fix.SetYield(nil)
+	V, A := b.Dial("V"), b.Dial("A")
+	if _, err := V.Connect(wire.ConnectPacket("victim", true, 300)); err != nil {
+		return c05result{Fail: "victim connect: " + err.Error()}
+	}
+	V.Send(&codec.Packet{Type: codec.SUBSCRIBE, PacketID: 1, Topics: [][]byte{[]byte("off/#")}, QoSs: []byte{1}})
+	if _, err := V.Barrier(); err != nil {
+		return c05result{Fail: "victim barrier: " + err.Error()}
+	}
+	if _, err := A.Connect(wire.ConnectPacket("offender", true, 300)); err != nil {
+		return c05result{Fail: "offender connect: " + err.Error()}
+	}
+	if !V.Served(wire.DefaultWait) {
+		return c05result{Incon: "victim not served"}
+	}
+	vid := V.ID()
+	const topic = "off/t"
+	var stream []byte
+	var want [][]byte
+	for i, s := range c.Sizes {
+		q := c.QoS[i%len(c.QoS)] & 1 // QoS 0/1: a QoS 2 message is handed on at PUBREL only
+		if s < 0 {
+			s = sizeAtLimit(c.BufSize, topic, q)
+			res.Classes = append(res.Classes, "publish-at-packet-limit")
+		}
+		pl := payload(i+1, s)
+		want = append(want, pl)
+		pp := &codec.Packet{Type: codec.PUBLISH, QoS: q, Topic: []byte(topic), Payload: pl}
+		if q > 0 {
+			pp.PacketID = uint16(i + 1)
+		}
+		stream = append(stream, codec.Encode(pp)...)
+	}
+	switch c.Tail {
+	case "garbage":
+		for i := 0; i < c.TailLen; i++ {
+			stream = append(stream, byte(i*37+int(c.Seed)*11+(i>>7))|1)
+		}
+	case "zeros":
+		stream = append(stream, make([]byte, c.TailLen)...)
+	case "ff":
+		stream = append(stream, bytes.Repeat([]byte{0xff}, c.TailLen)...)
+	case "pings":
+		stream = append(stream, bytes.Repeat([]byte{0xC0, 0}, c.TailLen/2)...)
+	}
+	if c.TailLen >= c.BufSize/2 && c.Tail != "none" {
+		res.Classes = append(res.Classes, "tail>=half-a-ring")
+	}
+	var seen atomic.Int32
+	var trapped atomic.Bool
+	release := make(chan struct{})
+	fix.SetYield(func(point string, obj interface{}) {
+		if point != "writeMessage.enter" {
+			return
+		}
+		if id, ok := obj.(uint64); ok && id == vid {
+			if int(seen.Add(1))-1 == c.TrapAt%len(c.Sizes) && trapped.CompareAndSwap(false, true) {
+				<-release
+			}
+		}
+	})
+	A.SendAsync(stream)
+	deadline := time.Now().Add(2 * time.Second)
+	for !trapped.Load() && time.Now().Before(deadline) {
+		time.Sleep(100 * time.Microsecond)
+	}
+	if !trapped.Load() {
+		close(release)
+		return c05result{Incon: "the delivery to the victim was not reached"}
+	}
+	res.Classes = append(res.Classes, "delivery-parked-while-offender-continues")
+	// let the offender's connection absorb what it can of the rest
+	settled(300 * time.Millisecond)
+	if c.End == "close" {
+		A.Close()
+		time.Sleep(5 * time.Millisecond)
+	}
+	close(release)
+	if c.End != "close" {
+		settled(300 * time.Millisecond)
+		A.Close()
+	}
+	if !A.WaitTeardown(wire.DefaultWait) {
+		return c05hang(res, "the offender's teardown did not finish")
+	}
+	for _, x := range b.Escaped() {
+		return c05result{Fail: x + " (in production the connection handler runs without recover: the broker process dies)"}
+	}
+	rx, err := V.Barrier()
+	if err != nil {
+		if err == wire.ErrTimeout {
+			return c05hang(res, "victim got no PINGRESP")
+		}
+		return c05result{Fail: fmt.Sprintf("the victim's connection is broken (%v; stream error: %v) although only the offender misbehaved", err, V.StreamErr()), Classes: res.Classes}
+	}
+	n := 0
+	for _, r := range rx {
+		if r.P.Type != codec.PUBLISH {
+			continue
+		}
+		if n >= len(want) {
+			return c05result{Fail: fmt.Sprintf("the victim received more PUBLISH packets (%d) than the offender's %d valid ones", n+1, len(want)), Classes: res.Classes}
+		}
+		if string(r.P.Topic) != topic || !bytes.Equal(r.P.Payload, want[n]) {
+			return c05result{Fail: fmt.Sprintf("the victim received the offender's valid message %d corrupted: topic %q, %d bytes (sent %d), first difference at byte %d (got %#x): bytes the offender sent later reached another client inside an accepted message", n, r.P.Topic, len(r.P.Payload), len(want[n]), firstDiff(r.P.Payload, want[n]), at(r.P.Payload, firstDiff(r.P.Payload, want[n]))), Classes: res.Classes}
+		}
+		n++
+	}
+	if n < c.TrapAt%len(c.Sizes)+1 {
+		return c05result{Fail: fmt.Sprintf("the victim received %d of the offender's messages; message %d had been accepted and was being delivered when the offender went on", n, c.TrapAt%len(c.Sizes)), Classes: res.Classes}
+	}
+	return res
+}
+
+func at(b []byte, i int) byte {
+	if i >= 0 && i < len(b) {
+		return b[i]
+	}
+	return 0
+}
+
+func genC05Victim(t *rapid.T) C05VCase {
+	c := C05VCase{BufSize: rapid.SampledFrom([]int{16384, 16384, 32768}).Draw(t, "bufsize"), Seed: rapid.Byte().Draw(t, "seed")}
+	for i, n := 0, rapid.IntRange(1, 3).Draw(t, "npubs"); i < n; i++ {
+		c.Sizes = append(c.Sizes, rapid.SampledFrom([]int{-1, -1, 10, 3000, 6000}).Draw(t, "size"))
+		c.QoS = append(c.QoS, byte(rapid.IntRange(0, 1).Draw(t, "q")))
+	}
+	c.TrapAt = rapid.IntRange(0, len(c.Sizes)-1).Draw(t, "trapat")
+	c.Tail = rapid.SampledFrom([]string{"none", "garbage", "garbage", "zeros", "ff", "pings", "pings"}).Draw(t, "tail")
+	c.TailLen = rapid.SampledFrom([]int{1, 200, c.BufSize / 2, c.BufSize/2 + 1, c.BufSize, 3 * c.BufSize}).Draw(t, "taillen")
+	c.End = rapid.SampledFrom([]string{"close", "stay"}).Draw(t, "end")
+	return c
+}
+
+func TestC05Victim(t *testing.T) {
+	rec := ev.New("C05", "victim")
+	defer rec.Flush()
+	if rp := ev.LoadReplay(t, "victim"); rp != nil {
+		var c C05VCase
+		json.Unmarshal(rp.Case, &c)
+		for i := 0; i < 5; i++ {
+			if r := runC05Victim(c); r.Fail != "" {
+				p := rec.Violation("-", "fault", r.Fail, c, nil)
+				rec.Flush()
+				t.Fatalf("VIOLATION %s replay=%s", r.Fail, p)
+			}
+		}
+		return
+	} else if ev.Replaying() {
+		t.Skip()
+	}
+	rapid.Check(t, func(t *rapid.T) {
+		c := genC05Victim(t)
+		r := runC05Victim(c)
+		if r.Incon != "" {
+			rec.Inconclusive()
+			rec.Class("inconclusive: "+r.Incon, 1)
+		}
+		cls := append(append([]string(nil), r.Classes...), "tail:"+c.Tail, "end:"+c.End)
+		rec.Case(c, r.Incon == "" && c.Tail != "none", cls...)
+		if r.Fail != "" {
+			p := rec.Violation("-", "fault", r.Fail, c, nil)
+			t.Fatalf("VIOLATION %s replay=%s", r.Fail, p)
+		}
+	})
+}
